@@ -39,10 +39,15 @@ class Ctx:
         self.boost = False     # set when an obligation is already known broken
 
     def n(self, quick, thorough):
+        """Random-case budget; tripled when an obligation is already known to be broken."""
         v = thorough if self.thorough else quick
         if self.boost and not self.thorough:
             v *= 3
         return int(v)
+
+    def bound(self, quick, thorough):
+        """Size/length bound of an exhaustive enumeration (never boosted)."""
+        return thorough if self.thorough else quick
 
 
 def load_known():
